@@ -98,7 +98,8 @@ int load_passwd_data(const char *passwd_file)
 		goto mmap_failed;
 	}
 
-	user_data = cJSON_ParseWithOpts(p, NULL, 0);
+	/* The mapping ends with the file: there is no terminating NUL to rely on. */
+	user_data = cJSON_ParseWithLength(p, (size_t)size);
 	if (user_data == NULL) {
 		log_err("Cannot parse passwd file!\n");
 		goto parse_failed;
